@@ -52,6 +52,11 @@ NewTags ==
   \cup (IF \E t \in Tgt : spc[t] = "idle" /\ spc'[t] = "fwd" /\ fallback'[t] THEN {"fallback"} ELSE {})
   \cup (IF \E s \in Src, t \in Tgt : t \in bcastTo[s] /\ t \notin bcastTo'[s] /\ chan'[t] = chan[t] THEN {"wmdrop"} ELSE {})
   \cup (IF \E t \in Tgt : replayTo[t] # replayTo'[t] /\ chan'[t] # chan[t] THEN {"replay"} ELSE {})
+  \* a keep-alive second while some target's recorded level lies below what the source was already told (the send guard
+  \* suppressed it): a keep-alive must repeat the last ack, not recompute it
+  \cup (IF idles' > idles /\ \E s \in Src : LET P == {ackByTarget[s][t] : t \in {u \in Tgt : ackByTarget[s][u] # Absent}}
+                                           IN P # {} /\ lastAck[s] > 0 /\ Min(P) < lastAck[s]
+        THEN {"idlelowmin"} ELSE {})
 SimNext ==
   /\ More
   /\ \/ Auto /\ UNCHANGED <<hist, idles>>
